@@ -19,9 +19,11 @@ def prop(pid, level, explanation, assumptions=(), trusted_base=(), **kw):
 prop("C01", "other",
      "Contracts on dns.name (_validate_labels, Name.__init__, from_wire_parser, ...) and dns.wirebase.Parser are "
      "discharged for all inputs by pyvc from the current source (class invariant of Name, wire decoder bounds/termination/"
-     "strictly-earlier pointers, uncompressed and compressed encoders' discipline, label text and the per-octet step lemmas of "
-     "from_text); clauses not proved are covered by the bounded stand-in (exhaustive small scope + seeded), labelled bounded.",
-     assumptions=["A-fold: a for loop over a++b is the loop over a then over b", "A-ext: IDNA codecs are external"])
+     "strictly-earlier pointers, uncompressed and compressed encoders' discipline, decode-then-encode identity on uncompressed "
+     "names (from_wire_parser#uncompressed: the octets consumed are the RFC 1035 encoding of the result), label text and the "
+     "per-octet step lemmas of from_text); clauses not proved are covered by the bounded stand-in (exhaustive small scope + seeded), labelled bounded.",
+     assumptions=["A-fold: a for loop over a++b is the loop over a then over b", "A-ext: IDNA codecs are external",
+                  "L-frame: the RFC 1035 encoding of labels[lo:hi] does not depend on list cells outside lo..hi-1 (instantiated, by induction, not re-proved)"])
 
 TECHNIQUE = {}
 NOT_APPLICABLE = {}
@@ -60,9 +62,12 @@ prop("C07", "other", _GENERIC + "Proved: Name equality contract (shared with C06
      "types replace; TTL minimisation; the covered type is adopted only by an empty set that declared none), modular over Set.add. "
      "Copying forms, insertion order, the other Rdataset operations and immutability are bounded.", needs_obligations=True,
      assumptions=["A-key: element == is an equivalence with a consistent hash (elements are abstracted as integer identities)"])
-prop("C08", "other", _GENERIC + "Proved: the budget invariant of reserve/release_reserved, Renderer._rollback, and add_question as the "
-     "model case of 'a record set that does not fit is removed whole' (on TooBig the buffer, counts and compression table are exactly "
-     "what they were). Message.to_wire control, reserve exactness and padding are bounded.")
+prop("C08", "other", _GENERIC + "Proved: the budget invariant of reserve/release_reserved, Renderer._rollback, and 'a record set that "
+     "does not fit is removed whole' for add_question, add_rrset and add_rdataset (on TooBig the buffer, counts and compression "
+     "table are exactly what they were and the section marker already names the section of the set that was dropped; otherwise the "
+     "output grew within max_size and nothing old moved), the record sets being stubs under an assumed append-only to_wire "
+     "interface (proved for names: Name.to_wire#file). Message.to_wire control, reserve exactness and padding are bounded.",
+     assumptions=["A-towire: RRset/Rdataset.to_wire only appends to the buffer and only enters offsets of what it appended into the compression table"])
 prop("C09", "other", _GENERIC + "Proved: the CNAME/other-data classification rule (NodeKind.classify) against the RFC rule. The field "
      "grammar of the reader and emitter, directives and $GENERATE are decided by the bounded stand-in.")
 prop("C10", "other", _GENERIC + "Proved: RFC 1982 Serial arithmetic and comparison contracts and the increment lemma; the transaction "
@@ -125,12 +130,18 @@ prop("C17", "other", _GENERIC + "Discharged: the mechanical lock-discipline obli
                   "A-float: clock readings are reals and never decrease"])
 prop("C18", "other", _GENERIC + "Proved: stream framing loops _net_read, _net_write and the async _read_exactly against an assumed "
      "socket contract (any fragmentation into chunks and would-block events yields exactly the requested octets in order, or "
-     "EOFError/Timeout, never a short result). is_response, source matching and the receive loops are bounded.",
-     assumptions=["A-ext: socket.recv/send and the async backend recv behave as their stated contracts"])
+     "EOFError/Timeout, never a short result); Message.is_response (QR, id, all four opcode bits, question entries compared as sets, "
+     "the two documented leniencies) and _matches_destination (queried port, and queried address in binary form or multicast "
+     "destination; skipped or UnexpectedSource as configured). The receive loops and TSIG/one-shot composition are bounded.",
+     assumptions=["A-ext: socket.recv/send and the async backend recv behave as their stated contracts",
+                  "A-inet: dns.inet.inet_pton / is_multicast are functions of the address text (assumed contracts)"])
 prop("C19", "other", _GENERIC + "Proved: _Node.search_in_node (binary search, termination); insert_nonfull on a leaf (replace in place / "
      "insert at the sorted position, strictly sorted and within the occupancy bound afterwards, modular over the search contract); "
      "split of a full leaf (two minimal halves and the median, concatenation preserved, same creator). Internal-node restructuring, "
      "copy-on-write isolation, cursors and whole histories are bounded (lists of child nodes inside heap objects are outside the "
      "engine's heap model).")
-prop("C20", "other", _GENERIC + "Proved: the node flag predicates read exactly their own bit. The invariant 'flags and delegation index "
-     "are a function of content' and bounds() are decided by the bounded stand-in (recomputation from content after every commit).")
+prop("C20", "other", _GENERIC + "Proved: the node flag predicates read exactly their own bit; the B-tree zone's "
+     "_maybe_cow_with_name gives a node handed out for writing the derived flag its name calls for (ORIGIN, else GLUE beneath a "
+     "cut, else DELEGATION for a name in the delegation index) against a stub index. The invariant 'flags and delegation index "
+     "are a function of content' over histories and bounds() are decided by the bounded stand-in (recomputation from content "
+     "after every commit).")
